@@ -798,9 +798,11 @@ def _expand(chunk):
                 dst = t2.basedir
             acc.n += 1
             acc.count("op:" + opname(op))
+            failed = False
             try:
                 step(t2, m2, op, kind, acc, check=True)
             except Trouble as t:
+                failed = True
                 t.detail["history"] = list(h) + [op]
                 t.detail["mode"] = "reopened before the last op" if mode == "fresh" else "live object"
                 _note(acc, t.sig, t.detail)
@@ -809,8 +811,9 @@ def _expand(chunk):
                 if m2.has_changes():
                     acc.nt(m2.key())
             shutil.rmtree(dst, ignore_errors=True)
-            if mode == "fresh" and check and op[0] in TREE_OPS:
-                # the same transition inside one lock with warm caches
+            if mode == "fresh" and check and op[0] in TREE_OPS and not failed:
+                # the same transition inside one lock with warm caches (skipped when the plain
+                # execution already violated the oracle: that defect is reported once)
                 m3 = m.copy()
                 shutil.copytree(src, dst, symlinks=True)
                 t3 = WorkingTree.open(dst)
